@@ -135,6 +135,9 @@ func runJSONStream(seed int64, n int, out, backendSpec string) *RunReport {
 				docs[i] = keyDomSanitize(h.doc(fmt.Sprintf("%08x-0000-4000-8000-%012x", i, g.Intn(1<<30)))).(map[string]interface{})
 			}
 			for i := range docs {
+				if i == 0 && round%2 == 1 {
+					docs[i]["tiny"] = []interface{}{float64(1e-7), float64(-2e-12), map[string]interface{}{"q": float64(5e-9)}}
+				}
 				// top-level field names that contain a dot are ordinary names for export/import
 				if g.Chance(0.4) {
 					docs[i]["p.q"] = int64(i)
@@ -250,6 +253,9 @@ func runJSONStream(seed int64, n int, out, backendSpec string) *RunReport {
 				{Kind: "Import", Coll: "nofile", File: &ImportFile{Kind: "unreadable"}},
 				{Kind: "Import", Coll: "badfile", File: &ImportFile{Kind: "illformed", Text: "[{\"a\": 1"}},
 				{Kind: "Import", Coll: "badfile2", File: &ImportFile{Kind: "illformed", Text: "{\"a\": 1}"}},
+				{Kind: "Import", Coll: "badfile3", File: &ImportFile{Kind: "illformed", Text: "[{\"_id\":\"" + idPool[4] + "\"}"}},
+				{Kind: "Import", Coll: "badfile4", File: &ImportFile{Kind: "illformed", Text: "["}},
+				{Kind: "Import", Coll: "badfile5", File: &ImportFile{Kind: "illformed", Text: "[{\"_id\":\"" + idPool[4] + "\"}}"}},
 				{Kind: "Import", Coll: "nullelem", File: &ImportFile{Kind: "elems", Text: "[null]", Elems: []map[string]interface{}{nil}}},
 				{Kind: "Import", Coll: "nullelem2", File: &ImportFile{Kind: "elems", Text: "[{\"_id\":\"" + idPool[2] + "\"}, null]", Elems: []map[string]interface{}{{"_id": idPool[2]}, nil}}},
 				{Kind: "Export", Coll: "missing"},
